@@ -531,6 +531,48 @@ def translate():
         deflate_touches = [(m, sorted(closure(m, set()))) for m in sorted(direct)]
     else:
         problems.append('compression.Deflate not found')
+    # ---- compression.py: `Deflate.from_options` hands out a NEW object on every call (C06 / C11: a compression context belongs to
+    # one connection; two connections alive at once must not share zlib objects): the value returned is a local name bound exactly
+    # once, by a call of the class (`Deflate(...)` / `cls(...)`), and the function neither stores into nor reads from anything that
+    # outlives the call (no attribute / subscript store, no subscript load, no `global` / `nonlocal`)
+    from_options_fresh = False
+    fo = find_func(co_cls, 'from_options') if co_cls is not None else None
+    if fo is not None:
+        rets = [n for n in ast.walk(fo) if isinstance(n, ast.Return)]
+        binds = {}
+        for n in ast.walk(fo):
+            if isinstance(n, ast.Assign):
+                for t in n.targets:
+                    for nm in ast.walk(t):
+                        if isinstance(nm, ast.Name):
+                            binds.setdefault(nm.id, []).append(n.value)
+        def is_ctor(v):
+            return isinstance(v, ast.Call) and isinstance(v.func, ast.Name) and v.func.id in ('Deflate', 'cls')
+        persistent = any(isinstance(n, (ast.Global, ast.Nonlocal)) or isinstance(n, ast.Subscript)
+                         or (isinstance(n, ast.Attribute) and isinstance(n.ctx, ast.Store)) for n in ast.walk(fo))
+        ok_ret = bool(rets) and all((is_ctor(r.value)) or (isinstance(r.value, ast.Name) and len(binds.get(r.value.id, [])) == 1 and is_ctor(binds[r.value.id][0]))
+                                    or (isinstance(r.value, ast.Constant) and r.value.value is None) for r in rets)
+        from_options_fresh = ok_ret and not persistent
+    # ---- session.py: where is the socket put back into blocking mode?  (C19: the proxy negotiation must run under the connect
+    # timeout - a silent proxy then gives socket.timeout -> ConnectFail instead of blocking for ever)
+    settimeout_none_in = []
+    connect_call_order = []
+    for fn in (se_cls.body if se_cls else []):
+        if isinstance(fn, ast.FunctionDef):
+            for n in ast.walk(fn):
+                if (isinstance(n, ast.Call) and isinstance(n.func, ast.Attribute) and n.func.attr == 'settimeout' and len(n.args) == 1
+                        and isinstance(n.args[0], ast.Constant) and n.args[0].value is None):
+                    settimeout_none_in.append(fn.name)
+    cfn = find_func(se_cls, '_connect') if se_cls else None
+    if cfn is not None:
+        evs = []
+        for n in ast.walk(cfn):
+            if isinstance(n, ast.Call) and isinstance(n.func, ast.Attribute):
+                if n.func.attr in ('_connect_proxy', '_connect_sock'):
+                    evs.append((n.lineno, n.col_offset, n.func.attr))
+                elif n.func.attr == 'settimeout':
+                    evs.append((n.lineno, n.col_offset, 'settimeout(%s)' % ', '.join(ast.unparse(a) for a in n.args)))
+        connect_call_order = [e[2] for e in sorted(evs)]
     facts['ast'] = dict(structure=structure, class_level=class_level,header_sep=ru[0], header_max=ru[1], proxy_sep=pru[0], proxy_max=pru[1],
                         texts=texts, state_attrs=state_attrs, ws_writes=ws_method_writes,
                         session_writes=se_writes, stream_writes=st_writes, fp_writes=fp_writes,
@@ -678,6 +720,12 @@ def frameParserInitCallsSuper : Bool := {'true' if fp_init_calls_super else 'fal
 /-- for every method of `compression.Deflate`: the attributes of `self` it assigns, directly or through `self.<method>()` calls -/
 def deflateTouches : List (String × List String) :=
   [{', '.join('(%s, [%s])' % (lean_str(m), ', '.join(lean_str(a) for a in attrs)) for m, attrs in deflate_touches)}]
+/-- `Deflate.from_options` returns an object constructed by this very call and touches nothing that outlives the call -/
+def fromOptionsFresh : Bool := {'true' if from_options_fresh else 'false'}
+/-- methods of `WebsocketSession` that call `<sock>.settimeout(None)` (back to blocking mode) -/
+def settimeoutNoneIn : List String := [{', '.join(lean_str(x) for x in settimeout_none_in)}]
+/-- `_connect`: its calls of `_connect_proxy` / `_connect_sock` / `settimeout`, in source order -/
+def connectCallOrder : List String := [{', '.join(lean_str(x) for x in connect_call_order)}]
 /-- keyword arguments `persist` forwards to `connect`: (keyword, variable) -/
 def persistConnectKw : List (String × String) := [{', '.join('(%s, %s)' % (lean_str(a), lean_str(b)) for a, b in persist_kw)}]
 
